@@ -1931,3 +1931,60 @@ func init() {
 		},
 	}
 }
+
+func init() {
+	props["C14"] = &propDef{
+		ID: "C14",
+		Anchored: []string{"GobEncode", "GobDecode", "WriteNpy", "ReadNpy", "WriteCSV", "ReadCSV", "convFromStrs", "PBEncode", "PBDecode", "FBEncode", "FBDecode", "numpyDtype", "fromNumpyDtype",
+			"serialization/pb", "serialization/fb", "binaryWriter", "binaryReader"},
+		Bounds: map[string]interface{}{
+			"round_trip": "the real encoder and the real decoder run back to back over a byte-accurate stream; element values (and mask bits) are symbolic over their full range incl. non-finite floats; dtype/shape/layout/mask presence are instantiated",
+			"formats": "npy: header text concrete, element bytes symbolic through a little-endian model of encoding/binary; pb: the generated gogo-protobuf Marshal/Unmarshal code of internal/serialization/pb is executed; fb: the flatbuffers builder and table readers (github.com/google/flatbuffers/go) are executed; gob and csv: the library's field/record logic is executed, encoding/gob and encoding/csv are FIFO models (assumed lossless), fmt %v / strconv.Parse* of a symbolic number are an injective uninterpreted string and its inverse (assumed to round-trip values; NaN payloads are not compared for csv)",
+			"shapes":  "rank 0-3 (rank 4 in thorough) incl. scalars, (1,n), (n,1), length-one axes", "layouts": "C, F (column-major), T (lazily transposed), S (sliced view)", "masks": "every mask bit symbolic, through SetMaskAt in logical coordinates",
+			"dtypes":  "all 16 dtypes with a Go kind the formats know (bool, ints, uints, floats, complex, string); a refusal (error) is accepted, a stream that reads back differently or cannot be read back is a violation",
+			"outside": "sparse tensors (sparse_io.go has no encoder), interoperability with real NumPy / protobuf / flatbuffers readers (only self round trips), csv formats other than %v, I/O errors of the underlying writer/reader",
+		},
+		Instances: func(tier string, seed int64) []Instance {
+			var out []Instance
+			thorough := tier == "thorough"
+			shapes := [][]int{{}, {3}, {1, 3}, {3, 1}, {2, 3}, {2, 1, 2}}
+			if thorough {
+				shapes = append(shapes, []int{2, 2, 2}, []int{1, 2, 1, 2}, []int{1}, []int{1, 1})
+			}
+			allDt := []string{"bool", "int", "int8", "int16", "int32", "int64", "uint", "uint8", "uint16", "uint32", "uint64", "float32", "float64", "complex64", "complex128", "string"}
+			n := 0
+			for _, format := range []string{"npy", "gob", "pb", "fb", "csv"} {
+				for si, sh := range shapes {
+					for li, lay := range []string{"C", "F", "T", "S"} {
+						if !layoutOK(sh, lay) {
+							continue
+						}
+						for _, masked := range []int{0, 1} {
+							for di, dt := range allDt {
+								full := dt == "float64" || (dt == "int16" && (li == 0 || si == 4))
+								if !full && !thorough {
+									// other dtypes: the plain matrix, plus one rotating odd (shape, layout, mask) combination
+									if !((si == 4 && li == 0 && masked == 0) || (si+li+masked+di)%11 == 0) {
+										continue
+									}
+								}
+								if masked == 1 && len(sh) == 0 {
+									continue
+								}
+								n++
+								cfg := map[string]interface{}{"dtype": dt, "format": format, "shape": sh, "layout": lay}
+								keys := []string{"format", "dtype", "shape", "layout"}
+								if masked == 1 {
+									cfg["masked"] = 1
+									keys = append(keys, "masked")
+								}
+								out = append(out, mkInst("vhC14", cfg, keys...))
+							}
+						}
+					}
+				}
+			}
+			return out
+		},
+	}
+}
